@@ -17,10 +17,12 @@ import (
 // ---- the fake balancer.ClientConn: behaves like ccBalancerWrapper of grpc v1.56.3 ----
 
 type fakeSC struct {
-	id      int
-	cc      *fakeCC
-	addrs   string // name of the address list last handed to this connection
-	removed bool   // RemoveSubConn was called
+	id    int
+	cc    *fakeCC
+	addrs string // name of the address list this connection uses
+	// retained: the very slice last accepted by the connection (gRPC keeps it without copying)
+	retained []resolver.Address
+	removed  bool // RemoveSubConn was called
 	// environment side: last state delivered to the balancer for this connection
 	state     connectivity.State
 	reported  bool
@@ -41,7 +43,13 @@ func (sc *fakeSC) String() string {
 
 func (sc *fakeSC) UpdateAddresses(a []resolver.Address) {
 	yield("sc.UpdateAddresses")
-	sc.addrs = addrName(a)
+	// like addrConn.updateAddrs of grpc v1.56.3: the connection KEEPS the slice it was given (it does
+	// not copy it) and ignores an update whose list equals the one it holds - so a balancer that
+	// rewrites a slice it handed out earlier makes the connection believe nothing changed
+	if sc.retained == nil || addrName(sc.retained) != addrName(a) {
+		sc.retained = a
+		sc.addrs = addrName(a)
+	}
 	sc.opAddrUpd++
 	sc.cc.ev("UpdateAddresses", sc, sc.addrs)
 }
@@ -117,7 +125,7 @@ func (cc *fakeCC) NewSubConn(addrs []resolver.Address, _ balancer.NewSubConnOpti
 		cc.ev("NewSubConn-failed", nil, addrName(addrs))
 		return nil, fmt.Errorf("fake: connection factory fails")
 	}
-	sc := &fakeSC{id: len(cc.scs), cc: cc, addrs: addrName(addrs), state: connectivity.Idle}
+	sc := &fakeSC{id: len(cc.scs), cc: cc, addrs: addrName(addrs), retained: addrs, state: connectivity.Idle}
 	cc.scs = append(cc.scs, sc)
 	cc.ev("NewSubConn", sc, sc.addrs)
 	return sc, nil
